@@ -4,7 +4,7 @@
    seeds are outside any model: they are covered by repeated-process runs only. *)
 From Coq Require Import Permutation.
 From Coq Require Import ZArith.
-From OAS Require Import Lib.Str Model.Order Proof.Order Model.Canon Proof.CanonOrder.
+From OAS Require Import Lib.Str Model.Order Proof.Order Model.Canon Proof.CanonOrder Proof.CanonDeep.
 Local Open Scope list_scope.
 
 (* every permutation of the members of an object (distinct keys) parses to the same map — for every
@@ -29,6 +29,12 @@ Proof. exact marking_order_irrelevant. Qed.
 Theorem C11_canonical_member_order : forall l l', Permutation l l' -> NoDup (map fst l) -> norm (JO l) = norm (JO l').
 Proof. exact norm_member_order. Qed.
 
+(* ... and at every depth: two documents that are the same tree up to the order of object members anywhere (inside
+   nested objects, inside arrays) have the same canonical form, provided member names are distinct in every object *)
+Theorem C11_canonical_order_deep : forall a b, mperm a b -> wf a -> norm a = norm b.
+Proof. exact norm_mperm. Qed.
+
+Check C11_canonical_order_deep : forall a b, mperm a b -> wf a -> norm a = norm b.
 Check C11_canonical_member_order : forall l l', Permutation l l' -> NoDup (map fst l) -> norm (JO l) = norm (JO l').
 Check C11_btree_perm : forall (A : Type) (l1 l2 : list (string * A)),
   Permutation l1 l2 -> NoDup (map fst l1) -> build l1 = build l2.
@@ -44,6 +50,27 @@ Example C11_canonical_nonvacuous :
   = norm (JO [("properties", JO [("a", JO [("type", JS "string"); ("maxLength", JN 3%Z)]); ("b", JO [("type", JS "string")])]); ("type", JS "object")]).
 Proof. vm_compute. reflexivity. Qed.
 
+(* the deep statement is not vacuous: a member order changed inside an object inside an array inside an object *)
+Example C11_canonical_deep_nonvacuous :
+  let inner := [("sku", JS "s"); ("qty", JN 1%Z)] in
+  let inner' := [("qty", JN 1%Z); ("sku", JS "s")] in
+  mperm (JO [("example", JA [JO inner; JS "x"]); ("type", JS "array")]) (JO [("type", JS "array"); ("example", JA [JO inner'; JS "x"])])
+  /\ wf (JO [("example", JA [JO inner; JS "x"]); ("type", JS "array")]).
+Proof.
+  cbv zeta. split.
+  - eapply (MP_obj _ _ [("example", JA [JO [("qty", JN 1%Z); ("sku", JS "s")]; JS "x"]); ("type", JS "array")]).
+    + constructor; [split; [reflexivity|]|constructor; [split; [reflexivity | apply MP_same]|constructor]].
+      apply MP_arr. constructor; [|constructor; [apply MP_same | constructor]].
+      eapply (MP_obj _ _ [("sku", JS "s"); ("qty", JN 1%Z)]).
+      * constructor; [split; [reflexivity | apply MP_same]|constructor; [split; [reflexivity | apply MP_same]|constructor]].
+      * apply perm_swap.
+    + apply perm_swap.
+  - constructor.
+    + cbn [map fst]. constructor; [intros [H|[]]; discriminate|constructor; [intros []|constructor]].
+    + repeat constructor; cbn [map fst snd]; try (intros [H|[]]; discriminate); try (intros []).
+Qed.
+
+Print Assumptions C11_canonical_order_deep.
 Print Assumptions C11_canonical_member_order.
 Print Assumptions C11_btree_perm.
 Print Assumptions C11_btree_sorted.
